@@ -515,8 +515,8 @@ func (c *Ctx) scannerOperators(ia *interpAnchors, reg *registry, rule string, op
 		var scannerVal ssa.Value
 		eachInstr(g, func(ins ssa.Instruction) {
 			if ld, ok := ins.(*ssa.UnOp); ok && ld.Op == token.MUL {
-				if ix, ok := ld.X.(*ssa.IndexAddr); ok && isFieldLoad(ix.X, ia.T, "scanners") {
-					if bo, ok := ix.Index.(*ssa.BinOp); ok && bo.Op == token.SUB && lenOfField(bo.X, ia.T, "scanners") {
+				if ix, ok := ld.X.(*ssa.IndexAddr); ok && isFieldLoad(ix.X, ia.T, c.fld("intp.scanners")) {
+					if bo, ok := ix.Index.(*ssa.BinOp); ok && bo.Op == token.SUB && lenOfField(bo.X, ia.T, c.fld("intp.scanners")) {
 						if k, isC := constInt(bo.Y); isC && k == 1 {
 							okTop = true
 							scannerVal = ld
